@@ -136,7 +136,7 @@ func (e *Encoder) WriteData(data interface{}) (int, error) {
 	case reflect.Struct:
 		return e.writeObject(source)
 	}
-	return 0, newCodecError("WriteData", "unsupported object:%v, kind:%v, type:%v", data, v.Kind(), v.Kind())
+	return 0, newCodecError("WriteData", "unsupported object, kind:%v, type:%v", v.Kind(), v.Type())
 }
 
 // write sends all of bs to the destination writer; a short count is an error
